@@ -243,7 +243,7 @@ def run(ctx):
     run_extension(ctx, "suggest", ext_suggest.run_ext)
 
 
-COLL = {"c1": ("a", ["x"]), "c2": ("b", ["x", "y"]), "c3": ("a", ["y"]), "c4": ("c", [])}
+COLL = {"c1": ("a", ["x"]), "c2": ("b", ["x", "y"]), "c3": ("a", ["y"]), "c4": ("c", []), "c5": ("x", ["b"])}
 
 
 def run_collection(ops):
